@@ -310,7 +310,7 @@ def judge_c01(d):
 
 
 PROPS["C01"] = {
-    "lean_modules": ["P2.Props.C01", "P2.Props.C03"],
+    "lean_modules": ["P2.Props.C01", "P2.Props.C01b", "P2.Props.C03"],
     "audit_module": "P2.Audit.C01",
     "harness_prop": "c01",
     "profile": "release",
@@ -325,7 +325,7 @@ PROPS["C01"] = {
 }
 
 PROPS["C02"] = {
-    "lean_modules": ["P2.Props.C03", "P2.Props.C07b"],
+    "lean_modules": ["P2.Props.C03", "P2.Props.C07b", "P2.Props.C02b"],
     "audit_module": "P2.Audit.C02",
     "harness_prop": "c02",
     "profile": "release",
@@ -407,6 +407,67 @@ PROPS["C20"] = {
     "level_note": "Chain length 2 (thorough 4) per base case; the chain theorem for arbitrary length is not proved (partial).",
     "assumptions": [],
     "rule": "1 (thorough 4) conditional setups x 18 condition/validity combinations, 2-6 dummy circuits, 2 cyclic chains with vd alterations of every 7th (thorough: every) embedded element; distinct = distinct request lines",
+}
+
+def post_c19(res, cfg, rundir, sh, harn):
+    """second process with another thread count; thorough: alternative builds (hash seed, SIMD)"""
+    import os, shutil
+    out = []
+    meta = os.path.join(rundir, "meta.json")
+    binp = os.path.join(harn, "target", "release", "p2h")
+    runs = [("second process, RAYON_NUM_THREADS=3", binp, {"RAYON_NUM_THREADS": "3"}),
+            ("third process, RAYON_NUM_THREADS=1", binp, {"RAYON_NUM_THREADS": "1"})]
+    builds = []
+    if res.tier == "thorough":
+        builds = [("hash seed A", {"CONST_RANDOM_SEED": "verif-seed-a"}, "target-alt-seed-a"),
+                  ("hash seed B", {"CONST_RANDOM_SEED": "verif-seed-b"}, "target-alt-seed-b"),
+                  ("AVX2", {"RUSTFLAGS": "-C target-feature=+avx2"}, "target-alt-avx2"),
+                  ("AVX-512", {"RUSTFLAGS": "-C target-cpu=native"}, "target-alt-native")]
+    for name, env, tdir in builds:
+        e = dict(env); e["CARGO_TARGET_DIR"] = os.path.join(harn, tdir)
+        rc, o = sh(["cargo", "build", "--offline", "--release"], cwd=harn, timeout=3600, env=e)
+        if rc != 0:
+            res.notes.append(f"alternative build {name} failed to compile: {o[-300:]}")
+            continue
+        runs.append((f"alternative build: {name}", os.path.join(harn, tdir, "release", "p2h"), {}))
+    res.cov["cross_runs"] = []
+    for name, b, env in runs:
+        rc, o = sh([b, "c19verify", meta, res.tier], timeout=1800, env=env)
+        lines = [l for l in o.splitlines() if l.startswith(("KEY-MISMATCH", "CROSS-VERIFY-FAIL", "CROSS-DECODE-FAIL"))]
+        res.cov["cross_runs"].append({"run": name, "mismatches": len(lines)})
+        for l in lines:
+            out.append(f"{name}: {l}")
+        if rc != 0 and not lines:
+            out.append(f"{name}: c19verify exited with status {rc}: {o[-300:]}")
+    for _, _, tdir in builds:
+        shutil.rmtree(os.path.join(harn, tdir), ignore_errors=True)
+    return out
+
+
+def judge_c19(d):
+    rq = d["request"]
+    if rq.startswith("c19 digest"):
+        return "the circuit digest is not hash(preprocessed cap, domain separator digest, degree bits)"
+    if rq.startswith("c19 cap"):
+        return "the preprocessed cap differs from the Merkle cap of the low-degree extension of the constant and sigma polynomials"
+    return None
+
+
+PROPS["C19"] = {
+    "lean_modules": ["P2.Props.C19"],
+    "audit_module": "P2.Audit.C19",
+    "harness_prop": "c19",
+    "profile": "release",
+    "judge": judge_c19,
+    "post": post_c19,
+    "trusted_base": KERNEL_TB + [
+        "runtime facts the model cannot exhibit (thread interleavings, compile-time hash seeds, SIMD lane arithmetic) are tied only by comparing real runs: rayon pools of 1/2/5/16 threads, separate processes, and in the thorough tier harness builds with two CONST_RANDOM_SEEDs, AVX2 and native (AVX-512) target features (partial, by nature)",
+        "the builder's key pipeline (gate ordering, selectors, sigma map) is not modelled as a whole: order-independence lemmas + recomputation of the digest and of the preprocessed cap from its polynomials",
+    ],
+    "level_text": "Lean 4: sorting with an injective key is independent of the input order (what makes gate order, selector indices and constant placement functions of the SET of gates/constants despite hash-container iteration); the circuit digest and the preprocessed Merkle cap (LDE on the coset, bit-reversed leaves) are recomputed by the model; implementation oracle: a fixed family of programs yields byte-identical verifier-only and common data, FFT outputs and Merkle caps under 4 thread counts and in separate processes (thorough: under different hash-map seeds and SIMD builds), and proofs made under one condition verify under every other",
+    "level_note": "Schedules, seeds and lanes are runtime facts: partial by nature; the theorem part covers the order-independence logic only.",
+    "assumptions": [],
+    "rule": "6 (thorough 14) fixed programs x 4 thread counts in-process + 2 further processes (+4 alternative builds in thorough) with cross-verification of proofs; digest/cap recomputation requests; distinct = distinct request lines",
 }
 
 NOT_CLAIMED = {}
